@@ -304,6 +304,7 @@ func c08SameNameTypes(cfg Config, res *Result) {
 }
 
 func suiteC08(cfg Config, res *Result) {
+	defer c08Edges(res)
 	defer c08SameNameTypes(cfg, res)
 	res.Rule = "random nested contexts (maps with string and int keys, slices, structs with exported and unexported fields, pointers incl. nil, *Value boxes, scalars, nil) x access paths built by walking them (valid steps by dot and by a final subscript, plus arbitrary name/index steps: missing keys, out-of-range indexes, unexported fields, indexes on maps and scalars, nil along the way); reference resolver over the terms gives the expected leaf / empty value / execution error; oracle (model-free): `{{ path }}`, `{{ path|length }}` and `{% if path %}` render exactly like the same template over the leaf bound directly, the empty value renders empty without error, an error is an execution error; also compared with the Lean model; non-trivial = path with >= 2 steps; distinct by (context, path)"
 	n := 5000
@@ -595,4 +596,33 @@ func suiteC08Shadow(cfg Config, res *Result) {
 			}
 			return nil
 		})
+}
+
+type c08Holder struct {
+	Extra any
+	Items []any
+}
+
+// c08Edges: a nil met in the middle of a path (in a map entry, a list item, an interface-typed
+// field) and a negative or out-of-range subscript are the empty value — never a panic, never an
+// element picked by accident
+func c08Edges(res *Result) {
+	ctx := pongo2.Context{
+		"m": map[string]any{"n": nil, "sub": map[string]any{"k": "v"}}, "l": []any{nil, map[string]any{"k": 1}},
+		"st": c08Holder{Items: []any{nil}}, "pst": &c08Holder{}, "a": []int{10, 20, 30}, "arr": [2]string{"x", "y"}, "s": "hey",
+		"i": -1, "big": int64(-3), "fl": -2.5, "zero": 0, "three": 3,
+	}
+	for _, c := range [][2]string{
+		{"{{ m.n.foo }}", ""}, {"{{ m.n.foo.bar }}", ""}, {"{{ l.0.k }}", ""}, {"{{ l.1.k }}", "1"}, {"{{ st.Extra.foo }}", ""}, {"{{ pst.Extra.foo }}", ""},
+		{"{{ st.Items.0.x }}", ""}, {"{{ m.n.0 }}", ""}, {"{{ m.n[0] }}", ""}, {"{{ m.sub.k }}", "v"}, {"{{ m.n|default:\"d\" }}", "d"}, {"{% if m.n.foo %}y{% else %}n{% endif %}", "n"},
+		{"{{ a[-1] }}", ""}, {"{{ a[i] }}", ""}, {"{{ a[big] }}", ""}, {"{{ a[fl] }}", ""}, {"{{ a[zero - 1] }}", ""}, {"{{ a[three] }}", ""}, {"{{ a[2] }}", "30"}, {"{{ a[zero] }}", "10"},
+		{"{{ arr[-1] }}", ""}, {"{{ arr[1] }}", "y"}, {"{{ s[-1] }}", ""}, {"{{ a.3 }}", ""}, {"{{ a.2 }}", "30"}, {"{% for v in a %}{{ a[forloop.Counter0 - 1] }};{% endfor %}", ";10;20;"},
+	} {
+		res.Cases++
+		res.DistinctNontrivial++
+		r := implRender(strings.ReplaceAll(c[0], "\\\"", "\""), ctx)
+		if r.Panicked || r.Err != "" || r.Out != c[1] {
+			res.add(Finding{Kind: "oracle", Proj: "resolver", Sig: "c08-edge", Case: c[0], Impl: r.String(), Model: "ok " + hx(c[1])})
+		}
+	}
 }
